@@ -9,7 +9,7 @@ def run(chk, replay=None):
     if replay is not None and replay.get('m') == 'trace':
         return file_common.run_traces(chk, lambda e: e['a'] in ('Create', 'Delete', 'AddLink', 'RemoveLink', 'Open'), 1, 0, replay=replay)
     t = 't' if chk.thorough else 'q'
-    cfgs = ['c03%s_%s' % (x, t) for x in 'abcdefhi']
+    cfgs = ['c03%s_%s' % (x, t) for x in 'abcdefhijk']
     sims = [('all', 2000 if chk.thorough else 100, 30)]
     J = ('Create', 'Delete', 'Open', 'AddLink', 'RemoveLink', 'SetLinks')
     judge = lambda r: r['step']['a'] in J
